@@ -22,7 +22,12 @@ ASSUMPTIONS = [
     "recursion depth, memory exhaustion and wall-clock are not modelled",
 ]
 
-MUTATORS = {'append', 'extend', 'insert', 'reverse', 'pop', 'sort', 'remove', 'clear'}
+MUTATORS = {'append', 'extend', 'insert', 'reverse', 'pop', 'sort', 'remove', 'clear', 'add', 'discard', 'update', 'setdefault',
+            'popitem', 'appendleft', 'popleft'}
+
+
+class EngineDefect(Exception):
+    "an internal soundness guard of the engine fired: nothing is reported as proved"
 
 
 class SVal:
@@ -114,6 +119,7 @@ class Exec:
             self.body = self.fn.body
         self.obls = []
         self.counter = itertools.count()
+        self.havoc_stack = []
         self.objcounter = itertools.count(1)
         self.loop_ord = {}
         loops = [n for n in ast.walk(ast.Module(body=self.body, type_ignores=[]))
@@ -226,6 +232,9 @@ class Exec:
         if kind == 'T3' and isinstance(v.kind, tuple) and v.kind[0] == 'tuple' and len(v.t) == 3:
             return SVal('T3', self.th.T3.mk3(*[self.to_int(x) for x in v.t]))
         if kind == 'E' and v.kind == 'ME' or kind == 'ME' and v.kind == 'E':
+            return SVal(kind, v.t)
+        if isinstance(kind, tuple) and isinstance(v.kind, tuple) and kind[0] == 'seq' and v.kind[0] == 'seq' \
+                and kind[1] in ('E', 'ME') and v.kind[1] in ('E', 'ME'):
             return SVal(kind, v.t)
         if isinstance(kind, tuple) and kind[0] == 'tuple' and v.kind == CONST and isinstance(v.t, tuple) \
                 and len(v.t) == len(kind) - 1:
@@ -419,6 +428,11 @@ class Exec:
         for v in vals:
             t = s.app(t, s.unit(self.lift(v, k).t))
         return SVal(('seq', k), t)
+
+    def ev_Dict(self, node, st):
+        if node.keys:
+            raise OutOfSubset('non-empty dict literal')
+        return SVal('map', self.th.m_empty)
 
     def ev_UnaryOp(self, node, st):
         v = self.ev(node.operand, st)
@@ -696,6 +710,11 @@ class Exec:
                 self.bind_target(target, SVal(('tuple',) + tuple(v.kind for v in vals), vals), s2)
             return n, bind
         src = self.ev(it, st)
+        if src.kind == 'map':
+            # iteration over a dict: an arbitrary enumeration of its key set
+            src = SVal(('seq', 'str'), self.th.enum_keys(self.th.m_dom(src.t)))
+        if src.kind == 'kset':
+            src = SVal(('seq', 'str'), self.th.enum_keys(src.t))
         if src.kind == EMPTYLIST:
             return z3.IntVal(0), (lambda s2: None)
         if not (isinstance(src.kind, tuple) and src.kind[0] == 'seq'):
@@ -811,6 +830,8 @@ class Exec:
         return const(t) if isinstance(t, bool) else SVal('bool', t)
 
     def call_set(self, node, st):
+        if not node.args:
+            return SVal('kset', self.th.ks_empty)
         v = self.ev(node.args[0], st)
         if v.kind == 'kset':
             return v
@@ -834,9 +855,15 @@ class Exec:
         for gen in g.generators:
             if gen.ifs:
                 raise OutOfSubset('quantifier with if')
+            if isinstance(gen.iter, ast.Name) and gen.iter.id == 'STR' and isinstance(gen.target, ast.Name):
+                v = z3.Const('%s!%d' % (gen.target.id, next(self.counter)), self.th.Str)
+                bound.append(v)
+                conds.append(z3.BoolVal(True))
+                st2.env[gen.target.id] = SVal('str', v)
+                continue
             if not (isinstance(gen.iter, ast.Call) and getattr(gen.iter.func, 'id', None) == 'range'
                     and isinstance(gen.target, ast.Name)):
-                raise OutOfSubset('quantifier domain must be range(...)')
+                raise OutOfSubset('quantifier domain must be range(...) or STR')
             v = z3.Int('%s!%d' % (gen.target.id, next(self.counter)))
             args = [self.to_int(self.ev(a, st2)) for a in gen.iter.args]
             lo, hi = (z3.IntVal(0), args[0]) if len(args) == 1 else (args[0], args[1])
@@ -1004,6 +1031,11 @@ class Exec:
             return self.apply_contract(c, base, args, kwargs, node, st)
         if k == 'map' and attr == 'keys':
             return SVal('kset', self.th.m_dom(base.t))
+        if k == 'kset' and attr == 'add':
+            args, _ = self.args_of(node, st)
+            self.check_mutation(node.func.value, st)
+            self.store(node.func.value, SVal('kset', self.th.ks_add(base.t, self.lift(args[0], 'str').t)), st)
+            return const(None)
         if k == 'cfg' and attr == 'is_atomic':
             args, kwargs = self.args_of(node, st)
             p = kwargs.get('path', args[1] if len(args) > 1 else None)
@@ -1162,6 +1194,11 @@ class Exec:
     # ---------------------------------------------------------------- stores
     def store(self, target, val, st):
         if isinstance(target, ast.Name):
+            # soundness guard: a variable written inside a loop body must be in that loop's havoc set (assigned_names),
+            # otherwise the loop head would keep its pre-loop value
+            for names in getattr(self, 'havoc_stack', ()):
+                if target.id not in names:
+                    raise EngineDefect('store to %r inside a loop whose havoc set misses it' % target.id)
             old = st.env.get(target.id)
             declared = self.contract.locals.get(target.id)
             if declared is not None:
@@ -1439,6 +1476,7 @@ class Exec:
 
     def havoc_loop(self, body, st, extra=()):
         names = self.assigned_names(body) | set(extra)
+        self._last_havoc = names
         for nme in sorted(names):
             if nme in st.env:
                 v = st.env[nme]
@@ -1501,6 +1539,7 @@ class Exec:
         # 2. arbitrary iteration
         head = pre.fork()
         self.havoc_loop(node.body, head, extra=targets)
+        hv_names = self._last_havoc
         at_head(head, k0)
         head.pc.append(z3.And(0 <= k0, k0 <= n_term))
         for g, txt in self.invariants(spec, head, node, 'assume'):
@@ -1521,10 +1560,12 @@ class Exec:
         head_snapshot.heap = dict(body_st.heap)
         outer_head = getattr(self, 'head', None)
         self.head = head_snapshot
+        self.havoc_stack.append(hv_names)
         try:
             body_results = self.run_block(node.body, body_st)
         finally:
             self.head = outer_head
+            self.havoc_stack.pop()
         for tag, s2, payload in body_results:
             if tag in ('next', 'continue'):
                 self.run_finally(spec, s2, head_snapshot, node)
@@ -1617,6 +1658,7 @@ class Exec:
             self.oblige(st, 'inv-init', node, g, 'loop %d invariant holds on entry: %s' % (ordn, txt))
         head = st.fork()
         self.havoc_loop(node.body, head)
+        hv_names = self._last_havoc
         for g, txt in self.invariants(spec, head, node, 'assume'):
             head.pc.append(g)
         c = self.truth(self.ev(node.test, head))
@@ -1639,7 +1681,12 @@ class Exec:
         outs = []
         head_snapshot = body_st.fork()
         head_snapshot.heap = dict(body_st.heap)
-        for tag, s2, payload in self.run_block(node.body, body_st):
+        self.havoc_stack.append(hv_names)
+        try:
+            while_results = self.run_block(node.body, body_st)
+        finally:
+            self.havoc_stack.pop()
+        for tag, s2, payload in while_results:
             if tag in ('next', 'continue'):
                 self.run_finally(spec, s2, head_snapshot, node)
                 for g, txt in self.invariants(spec, s2, node, 'preserve'):
@@ -1810,6 +1857,10 @@ SPEC_FUNCS = {
     'wf_map': ([('seq', 'E'), 'map'], 'bool', lambda th: th.wf_map),
     'apply_map': (['map', ('seq', 'E')], 'map', lambda th: th.apply_map),
     'is_atomic': (['V', 'path'], 'bool', lambda th: th.is_atomic),
+    'entry_for': ([('seq', 'E'), 'str'], 'int', lambda th: th.entry_for),
+    'enum_keys': (['kset'], ('seq', 'str'), lambda th: th.enum_keys),
+    'enum_pos': (['kset', 'str'], 'int', lambda th: th.enum_pos),
+    'keys_of': (['map'], 'kset', lambda th: th.m_dom),
     'sorted_b': ([('seq', 'E')], 'bool', lambda th: th.sorted_b),
     'gap_ok': ([('seq', 'V'), ('seq', 'V'), 'fn', 'int', 'int', 'int'], 'bool', lambda th: th.gap_ok),
     'al': ([('seq', 'V'), ('seq', 'V'), ('seq', 'E'), 'fn'], 'bool', lambda th: th.al),
